@@ -14,7 +14,9 @@ class C10(LogCheck):
                   "streamed, in streaming order, each at the insertion that streams it (named form: the insertion statement emits "
                   "the call iff the stream is live, and live <-> enabled is invariant; one-expression form: after every prefix of "
                   "the chain exactly the prefix's calls have happened and the buffer holds exactly the prefix's text); the C++ shape "
-                  "of the callable is carried by the model and provably ignored (a callable is a callable). "
+                  "of the callable is carried by the model and provably ignored (a callable is a callable); a callable streamed "
+                  "after an insertion that made the statement's stringstream fail is still called exactly once (operator<< tests "
+                  "only that the buffer exists; the std stream drops the text). "
                   "Tie: the generated C++ program is compiled at each of the six minima with static_asserts pinning "
                   "decltype(L::trace()/…/fatal()) to null_stream/smart_stream for all 36 (severity, minimum) pairs x 10 loggers, "
                   "the same fact is compared at run time with the extracted model, the gate's >= and the enum order are re-read "
@@ -33,7 +35,9 @@ class C10(LogCheck):
     rule = ("same case space as C05 (programs over threshold changes, one-expression statements, named streams, stream-type queries; "
             "6 binaries, one per compile-time minimum). Callable items carry an id and one of 8 C++ shapes (o l p f F c k v, see "
             "props/log_common.py); every shape occurs alone and after a string item at every (minimum, logger, relevant threshold "
-            "setting, severity, form) cell, and in every ordered pair of shapes for two loggers. Non-trivial: a callable was streamed or something "
+            "setting, severity, form) cell, and in every ordered pair of shapes for two loggers. Items that make the stringstream fail (null const char*, null streambuf*, a user operator<< "
+            "setting failbit) occur before, between and after callables; statements also run inside destructors during stack "
+            "unwinding, in catch handlers and in destructors on normal exit. Non-trivial: a callable was streamed or something "
             "was delivered. distinct = distinct case line")
     modelled_note = ("modelled, not verified: overload resolution between the lazy (callable) and the eager operator<<, copy of the "
                      "callable into the operator, lifetime of temporaries and copy elision; the stream TYPE is a compiler fact "
